@@ -177,3 +177,151 @@ def script_to_wire(sc):
     if sc.get("undoneAt"):
         w.append(list(sc["undoneAt"]))
     return w
+
+
+
+
+# ------------------------------------------------------------------------------------------------
+# added for C06 (space-converting wrappers): the stub with generated nested spaces.  A subclass with
+# its own constructor -- nothing above is changed.
+
+def pt_weight(c):
+    """what the reward accrual sees of an action: sum over the numbers of its canonical wire form
+    (|i| for an integer-typed entry, |num| + den for a float-typed one); 0 for a non-canonical value.
+    Lean: Pt.weight (Model/Wrappers.lean)"""
+    def num(x):
+        if isinstance(x, int):
+            return abs(x)
+        if isinstance(x, list) and len(x) == 2:
+            return abs(x[0]) + x[1]
+        return 0
+    if not isinstance(c, list) or not c:
+        return 0
+    if c[0] == "s":
+        return num(c[1])
+    if c[0] == "a":
+        return sum(num(x) for x in c[2])
+    if c[0] == "m":
+        return sum(pt_weight(p) for p in c[2])
+    if c[0] == "t":
+        return sum(pt_weight(p) for p in c[1])
+    return 0
+
+
+class SpaceStubSim(DynamicOrderSimulation):
+    """The scripted stub whose learning agents have generated nested action / observation spaces
+    (descriptions of harness/spc.py).  `get_obs` returns point number (7 t + 3 a + reads [+ shift])
+    mod len of the agent's scripted list of observation points; `step` logs the canonical form of
+    every action it receives and accrues rewards from `pt_weight` of it.  Everything else is StubSim.
+    With `kw=True` the getters honour keyword arguments (`shift=`, the number of true entries of
+    `fusion_matrix=`, `bonus=`), which is what CommunicationHandshakeWrapper relies on."""
+
+    def __init__(self, script, spaces, obs_pts, flat_ep=False, kw=False, nulls=None):
+        import spc
+        self._spc = spc
+        self.flat_ep = flat_ep
+        self.kw = kw
+        self.n = script["n"]
+        self.learning = list(script["learning"])
+        self.done_at = list(script["doneAt"])
+        self.finish_at = script["finishAt"]
+        self.noms = [list(x) for x in script["noms"]]
+        self.undone_at = list(script.get("undoneAt", []))
+        self.ids = [f"{'zwxbyvcuat'[i % 10]}{i}{'_' * (i % 3)}" for i in range(self.n)]
+        self.idx = {aid: i for i, aid in enumerate(self.ids)}
+        self.space_desc = [None if s is None else (s[0], s[1]) for s in spaces]
+        self.obs_pts = [list(x) for x in obs_pts]
+        agents = {}
+        for i, aid in enumerate(self.ids):
+            if self.learning[i]:
+                kwargs = {}
+                if nulls is not None and nulls[i] is not None:
+                    na, no = nulls[i]
+                    if na is not None:
+                        kwargs["null_action"] = spc.to_py(self.space_desc[i][0], na)
+                    if no is not None:
+                        kwargs["null_observation"] = spc.to_py(self.space_desc[i][1], no)
+                agents[aid] = Agent(id=aid, observation_space=spc.to_gym(self.space_desc[i][1]),
+                                    action_space=spc.to_gym(self.space_desc[i][0]), **kwargs)
+            else:
+                agents[aid] = PrincipleAgent(id=aid)
+        self.agents = agents
+        self.finalize()
+        self.ep = 0
+        self.t = 0
+        self.reads = [0] * self.n
+        self.pend = [0] * self.n
+        self.step_log = []
+        self.accrued_snapshot = [0] * self.n
+        self._set_next()
+
+    def _set_next(self):
+        nom = self.noms[self.t] if self.t < len(self.noms) else list(range(self.n))
+        self.next_agent = [self.ids[i] for i in nom]
+
+    def reset(self, **kwargs):
+        self.ep = 1 if self.flat_ep else self.ep + 1
+        self.t = 0
+        self.reads = [0] * self.n
+        self.pend = [0] * self.n
+        self.accrued_snapshot = list(self.pend)
+        self._set_next()
+
+    def step(self, action_dict, **kwargs):
+        entry = []
+        for k, v in action_dict.items():
+            a = self.idx[k]
+            sd = self.space_desc[a]
+            entry.append((a, self._spc.canon_pt(sd[0], v) if sd is not None else "bad"))
+        self.step_log.append(entry)
+        self.t += 1
+        got = dict(entry)
+        for a in range(self.n):
+            act = pt_weight(got[a]) if a in got else None
+            self.pend[a] += accr(a, self.t, act)
+        self.accrued_snapshot = list(self.pend)
+        self._set_next()
+
+    def render(self, **kwargs):
+        pass
+
+    def get_obs(self, agent_id, **kwargs):
+        a = self.idx[agent_id]
+        shift = 0
+        if self.kw:
+            shift = int(kwargs.get("shift", 0))
+            fm = kwargs.get("fusion_matrix")
+            if fm:
+                shift += sum(1 for v in fm.values() if v)
+        pts = self.obs_pts[a]
+        reads = self.reads[a]
+        self.reads[a] += 1
+        if not pts:
+            return ()
+        pd = pts[(7 * self.t + 3 * a + reads + shift) % len(pts)]
+        return self._spc.to_py(self.space_desc[a][1], pd)
+
+    def get_reward(self, agent_id, **kwargs):
+        a = self.idx[agent_id]
+        r = self.pend[a]
+        self.pend[a] = 0
+        if self.kw:
+            r += int(kwargs.get("bonus", 0))
+        return r
+
+    def _done(self, a):
+        u = self.undone_at[a] if a < len(self.undone_at) else 1000000
+        return self.done_at[a] <= self.t and not (u <= self.t)
+
+    def get_done(self, agent_id, **kwargs):
+        return self._done(self.idx[agent_id])
+
+    def get_all_done(self, **kwargs):
+        return self.finish_at <= self.t
+
+    def get_info(self, agent_id, **kwargs):
+        return {"t": self.t}
+
+    def dump(self):
+        """[ep, t] + reads + pend  (Lean: stubDump)"""
+        return [self.ep, self.t] + list(self.reads) + list(self.pend)
